@@ -221,6 +221,7 @@ type vpKV struct {
 	cutLat    time.Duration
 	latResp   time.Duration // bound of the response leg (0 = immediate)
 	ackYield  bool
+	faultForce bool // inject faults[0] without asking the explorer
 	watchFailLeft int
 }
 
@@ -238,7 +239,10 @@ func (k *vpKV) begin(op string) int {
 	vpYield(op + ".issue")
 	f := vpFaultNone
 	if k.faultLeft > 0 && len(k.faults) > 0 && (k.faultOps == "" || k.faultOps == op) {
-		c := vpChoose("fault."+op, len(k.faults)+1)
+		c := 1
+		if !k.faultForce {
+			c = vpChoose("fault."+op, len(k.faults)+1)
+		}
 		if c > 0 {
 			f = k.faults[c-1]
 			k.faultLeft--
